@@ -6,7 +6,7 @@ UNIT = dict(
     forvec=["candidates"],
     items=[
         ("error_enum", "e"),
-        ("impl", "i", "FeoxStore", ["update_record_with_ttl", "update_record_with_ttl_bytes", "retire_expired_if_current"], {"header": "impl FeoxStore {"}),
+        ("impl", "i", "FeoxStore", ["note_expired_record?", "update_record_with_ttl", "update_record_with_ttl_bytes", "retire_expired_if_current"], {"header": "impl FeoxStore {"}),
         ("impl", "o", "FeoxStore", ["delete_with_timestamp", "insert_with_timestamp_and_ttl_internal", "insert_bytes_with_expiry"], {"header": "impl FeoxStore {"}),
         ("impl", "a", "FeoxStore", ["replace_record_if_current"], {"header": "impl FeoxStore {"}),
         ("fn", "s", "sample_and_expire_batch"),
